@@ -21,6 +21,7 @@ import (
 	"fmt"
 	"math/rand"
 	"os"
+	"strconv"
 	"sync"
 	"sync/atomic"
 	"time"
@@ -599,7 +600,7 @@ func (e *env) runStorm(name string, rng *rand.Rand, nconn, workersPerConn, burst
 	return map[string]interface{}{"name": name, "requests": total, "errors": errs, "collisions": coll, "closed": closed, "reenc_conns": nre, "error_answers_retried": nerr, "slowest_burst_ms": maxMs, "unanswered_before_settle": len(pending)}
 }
 
-func startMosn(tmp string, up *xc02.Up) string {
+func startMosn(tmp string, up *xc02.Up, sub string) string {
 	laddr := e2e.FreeAddr()
 	clusters := e2e.BuildClusters([]e2e.ClusterSpec{{Name: "up", Hosts: []string{up.Addr}}})
 	add := func(k string) []*v2.HeaderValueOption {
@@ -625,7 +626,7 @@ func startMosn(tmp string, up *xc02.Up) string {
 		{Prefix: "/", Cluster: "up", Extra: func(r *v2.Router) {
 			r.Match = v2.RouterMatch{Headers: []v2.HeaderMatcher{{Name: "service", Value: "c02"}}}
 		}}}
-	lst := e2e.BuildListener(e2e.ListenerSpec{Name: "c02", Addr: laddr, Downstream: "X", Upstream: "X", SubProto: "bolt", Routes: routes,
+	lst := e2e.BuildListener(e2e.ListenerSpec{Name: "c02", Addr: laddr, Downstream: "X", Upstream: "X", SubProto: sub, Routes: routes,
 		StreamFilters: []v2.Filter{{Type: "c02body", Config: map[string]interface{}{}}}})
 	e2e.StartMosn(e2e.BuildConfig([]v2.Listener{lst}, clusters, e2e.ScratchLog(tmp)))
 	vh.Must(e2e.WaitListen(laddr, 10*time.Second), "mosn listener")
@@ -641,6 +642,10 @@ func main() {
 	shards := flag.Int("shards", 1, "number of shards")
 	rounds := flag.Int("rounds", 10, "storm rounds")
 	alwaysClose := flag.Bool("close", false, "storm: close the upstream connection in every round")
+	tproto := flag.String("proto", "bolt", "table: bolt|boltv2|dubbo|tars")
+	tbase := flag.String("base", "4294967294", "table: value the id counter of every connection is seeded with")
+	tshift := flag.Int("shift", 0, "table: added to a real id before it is reduced to the model's id type")
+	xproto := flag.String("xproto", "bolt", "hop, storm: bolt|boltv2, the protocol of the proxy listener, its upstream and the harness peers")
 	flag.Parse()
 	if !vh.HooksCompiled() {
 		vh.Must(fmt.Errorf("built without -tags verif"), "hooks")
@@ -650,7 +655,12 @@ func main() {
 	rs := vh.NewOut(*res)
 	defer rs.Close()
 	if *mode == "table" {
-		runTable(*cases, tr, rs, *shard, *shards)
+		p := protoByName(*tproto)
+		base, err := strconv.ParseUint(*tbase, 10, 64)
+		if p == nil || err != nil {
+			vh.Must(fmt.Errorf("-proto %q -base %q", *tproto, *tbase), "table flags")
+		}
+		runTable(*cases, tr, rs, *shard, *shards, p, base, *tshift)
 		return
 	}
 	tmp, _ := os.MkdirTemp("", "c02-")
@@ -660,16 +670,24 @@ func main() {
 		return
 	}
 	emit := func(ev map[string]interface{}) { tr.Emit(vh.Ev(ev)) }
+	if *xproto != "bolt" && *xproto != "boltv2" {
+		vh.Must(fmt.Errorf("-xproto %q", *xproto), "flags")
+	}
+	xc02.WireV2 = *xproto == "boltv2"
+	np := "" // run names say which protocol they ran over
+	if xc02.WireV2 {
+		np = "v2"
+	}
 	up := xc02.NewUp(emit)
 	defer up.Stop()
-	laddr := startMosn(tmp, up)
+	laddr := startMosn(tmp, up, *xproto)
 	sched := gate.Install(nil)
 	defer sched.Uninstall()
 	g := xc02.InstallGates() // replaces the scheduler's gate callback; its event sink stays
 	defer g.ReleaseAll()
 	e := &env{tr: tr, up: up, sched: sched, g: g, svc: "c02", laddr: laddr, emit: emit, shard: *shard, patientLeft: 3}
 	// the first request makes the pool connect (it fails while the pool connects): warm up outside any run
-	tr.Emit(vh.Ev{"ev": "run", "name": fmt.Sprintf("warm%d", *shard), "mode": "warm"})
+	tr.Emit(vh.Ev{"ev": "run", "name": fmt.Sprintf("%swarm%d", np, *shard), "mode": "warm", "xproto": *xproto})
 	cl := e.dial()
 	warmOK := e.warm(cl, fmt.Sprintf("w%d", *shard))
 	cl.Close()
@@ -698,7 +716,7 @@ func main() {
 				return err
 			}
 			n++
-			rs.Put(e.runHop(fmt.Sprintf("h%d.%d", *shard, idx), c))
+			rs.Put(e.runHop(fmt.Sprintf("%sh%d.%d", np, *shard, idx), c))
 			return nil
 		})
 		vh.Must(err, "cases")
@@ -706,7 +724,7 @@ func main() {
 		rng := rand.New(rand.NewSource(vh.Seed()*1000 + int64(*shard)))
 		for i := 0; i < *rounds && atomic.LoadInt64(&lost) <= maxLost; i++ {
 			n++
-			rs.Put(e.runStorm(fmt.Sprintf("s%d.%d", *shard, i), rng, 1+rng.Intn(3), 1+rng.Intn(3), 4+rng.Intn(6), rng.Intn(4) == 0 || *alwaysClose))
+			rs.Put(e.runStorm(fmt.Sprintf("%ss%d.%d", np, *shard, i), rng, 1+rng.Intn(3), 1+rng.Intn(3), 4+rng.Intn(6), rng.Intn(4) == 0 || *alwaysClose))
 		}
 	}
 	rs.Put(map[string]interface{}{"summary": true, "runs": n, "skipped": skipped, "lost": atomic.LoadInt64(&lost),
